@@ -498,6 +498,7 @@ def _own_terms(fn):
     out = []
     for path in enumerate_paths(g, max_paths=4000):
         env, eq, ne, sites = {}, set(), set(), []
+        flagv = {}
         cnt = [0]
 
         def ev(e):
@@ -527,6 +528,15 @@ def _own_terms(fn):
                 continue
             if nd.kind == "cond":
                 scan_calls(a)
+                if isinstance(a, ast.Name) and a.id in flagv \
+                        and lab in ("T", "F"):
+                    conj = flagv[a.id]     # `own = t.handler is self`
+                    if lab == "T":
+                        for pair, is_ in conj:
+                            (eq if is_ else ne).add(pair)
+                    elif len(conj) == 1:
+                        pair, is_ = conj[0]
+                        (ne if is_ else eq).add(pair)
                 if isinstance(a, ast.Compare) and len(a.ops) == 1 \
                         and isinstance(a.ops[0], (ast.Is, ast.IsNot)) \
                         and lab in ("T", "F"):
@@ -542,6 +552,21 @@ def _own_terms(fn):
                 for t in a.targets:
                     if isinstance(t, ast.Name):
                         env[t.id] = v
+                        flagv.pop(t.id, None)
+                        parts = a.value.values if isinstance(
+                            a.value, ast.BoolOp) and isinstance(
+                            a.value.op, ast.And) else [a.value]
+                        conj = []
+                        for c_ in parts:
+                            if isinstance(c_, ast.Compare) \
+                                    and len(c_.ops) == 1 and isinstance(
+                                        c_.ops[0], (ast.Is, ast.IsNot)):
+                                conj.append((
+                                    frozenset((ev(c_.left),
+                                               ev(c_.comparators[0]))),
+                                    isinstance(c_.ops[0], ast.Is)))
+                        if conj and len(conj) == len(parts):
+                            flagv[t.id] = conj
                     elif isinstance(t, ast.Attribute):
                         eq.add(frozenset((("attr", ev(t.value), t.attr), v)))
                     elif isinstance(t, (ast.Tuple, ast.List)):
